@@ -72,7 +72,7 @@ def finish(prop, tier, seed, info, reports, dead, wall, replaying=False):
         rc = 2
         for w in inconc[:10]:
             lines.append('INCONCLUSIVE property=%s %s' % (prop, w[:800]))
-    ndist = len(distinct) + ndist_extra
+    ndist = len(distinct) + ndist_extra + counters.get('distinct_extra', 0)
     cov = {
         'evaluations': int(evaluations),
         'distinct_nontrivial': int(ndist),
